@@ -19,6 +19,7 @@ the literal again:
     calls a mutating method on the name, never stores to a subscript of it and never augments it.  Everywhere else
     (e.g. `self.headers = CONST`, where a later `.extend` would change the constant itself) the name is LEFT AS IT
     IS, so a translator that expects a literal there still reports the shape as unknown;
+  * `[x for x in it]` is read as `list(it)`;
   * literal expressions are folded: `{…} | {…}`, `[…] + […]`, `'a' + 'b'`, f-strings / `%` / `.format` of
     literals, `list(<literal>)`, `set(…)`, `tuple(…)`, `sorted(<literal of strings>)`, `<literal>.copy()`;
   * `NAME.search(x)` (match, fullmatch, findall, finditer, sub, subn, split) on a constant
@@ -73,7 +74,7 @@ def _value_node(v, like: ast.AST) -> ast.AST:
     return n
 
 
-def _fold(node: ast.AST) -> ast.AST:
+def _fold(node: ast.AST, builtins_ok: bool = True) -> ast.AST:
     """fold one node whose children are already folded; returns the node itself when no rule applies"""
     try:
         if isinstance(node, ast.BinOp):
@@ -97,6 +98,14 @@ def _fold(node: ast.AST) -> ast.AST:
             if isinstance(node.op, ast.Mod) and isinstance(l, ast.Constant) and isinstance(l.value, str) \
                     and _is_immutable_literal(r):
                 return ast.copy_location(ast.Constant(value=l.value % ast.literal_eval(r)), node)
+        if builtins_ok and isinstance(node, ast.ListComp) and len(node.generators) == 1:
+            g = node.generators[0]
+            if not g.ifs and not g.is_async and isinstance(g.target, ast.Name) and isinstance(node.elt, ast.Name) \
+                    and node.elt.id == g.target.id:
+                # `[x for x in it]` is `list(it)`
+                new = ast.Call(func=ast.Name(id='list', ctx=ast.Load()), args=[g.iter], keywords=[])
+                ast.copy_location(new.func, node)
+                return _fold(ast.copy_location(new, node))
         if isinstance(node, ast.JoinedStr):
             parts = []
             for v in node.values:
@@ -111,7 +120,7 @@ def _fold(node: ast.AST) -> ast.AST:
             return ast.copy_location(ast.Constant(value=''.join(parts)), node)
         if isinstance(node, ast.Call) and not node.keywords:
             f = node.func
-            if isinstance(f, ast.Name) and f.id in ('list', 'set', 'tuple', 'sorted') and len(node.args) == 1 \
+            if builtins_ok and isinstance(f, ast.Name) and f.id in ('list', 'set', 'tuple', 'sorted') and len(node.args) == 1 \
                     and isinstance(node.args[0], (ast.List, ast.Tuple, ast.Set)) and _is_literal(node.args[0]):
                 a = node.args[0]
                 if f.id == 'list' and not isinstance(a, ast.Set):
@@ -142,9 +151,12 @@ def _fold(node: ast.AST) -> ast.AST:
 
 
 class _Folder(ast.NodeTransformer):
+    #: False when the module binds one of the builtin names the folding rules rely on (list, set, tuple, sorted, …)
+    builtins_ok = True
+
     def generic_visit(self, node):
         node = super().generic_visit(node)
-        return _fold(node)
+        return _fold(node, self.builtins_ok)
 
 
 def _other_bindings(tree: ast.Module, top: Dict[str, ast.stmt]) -> Set[str]:
@@ -383,6 +395,7 @@ def normalise(tree: ast.Module, keep=()) -> ast.Module:
         for n in _other_bindings(tree, top):
             top.pop(n, None)
         mutated = _mutated(tree)
+        _Folder.builtins_ok = not (_other_bindings(tree, {}) & (SAFE_CALLS | {'isinstance', 'str', 'int', 'format'}))
         readonly = {k: v for k, v in _readonly_params(tree).items()
                     if k not in _other_bindings(tree, {}) - {k}}
         immut: Dict[str, ast.AST] = {}
